@@ -39,6 +39,7 @@ impl XzGenParams {
 pub fn gen_payload(rng: &mut Rng, small: bool) -> (Vec<u8>, Vec<u8>, String) {
     // an LZMA2 stream without any chunk (just the end byte): an empty block
     if rng.chance(1, 40) {
+        NEED_DICT.with(|n| n.set(0));
         return (vec![0], vec![], "empty-lzma2".to_string());
     }
     #[cfg(not(miri))]
@@ -55,6 +56,7 @@ pub fn gen_payload(rng: &mut Rng, small: bool) -> (Vec<u8>, Vec<u8>, String) {
         };
         let fl: Vec<usize> = (0..rng.below(3)).map(|_| rng.usize_below(n)).collect();
         if let Some(enc) = crate::liblzma::lzma2_raw_encode(&plain, &eo, &fl) {
+            NEED_DICT.with(|d| d.set((n as u64).min(1 << 16)));
             return (enc, plain, format!("liblzma-lzma2[{}]", n));
         }
     }
@@ -64,6 +66,14 @@ pub fn gen_payload(rng: &mut Rng, small: bool) -> (Vec<u8>, Vec<u8>, String) {
         let mut p = L2Params::standard(nch, ms);
         if small {
             p.w = [1, 1, 4, 1, 1, 2];
+        } else if rng.chance(1, 5) {
+            // capped distances, long copies, no dictionary reset after the first chunk: the block's
+            // output is many times the dictionary it has to announce
+            p.max_dist = *rng.pick(&[4096u64, 6144, 8192]);
+            p.long_bias = true;
+            p.w = [0, 3, 10, 3, 3, 0];
+            p.n_chunks = rng.range(3, 10) as usize;
+            p.max_syms = 200;
         }
         let mut chunks = gen_chunks(rng, &p);
         if small {
@@ -76,9 +86,15 @@ pub fn gen_payload(rng: &mut Rng, small: bool) -> (Vec<u8>, Vec<u8>, String) {
         }
         if let Ok(w) = lzma2::write(&chunks) {
             let d = chunks.iter().map(|c| c.short()).collect::<Vec<_>>().join(" ");
+            NEED_DICT.with(|n| n.set(w.need_dict));
             return (w.bytes, w.output, d);
         }
     }
+}
+
+thread_local! {
+    /// largest copy distance of the payload `gen_payload` returned last (on this thread)
+    pub static NEED_DICT: std::cell::Cell<u64> = const { std::cell::Cell::new(0) };
 }
 
 pub fn gen_xz(rng: &mut Rng, p: &XzGenParams) -> (XzSpec, String) {
@@ -104,7 +120,12 @@ pub fn gen_xz(rng: &mut Rng, p: &XzGenParams) -> (XzSpec, String) {
             } else {
                 0
             },
-            dict_prop: rng.range(xz::lzma2_dict_prop_for(plain.len() as u64) as u64, 40) as u8,
+            // any dictionary that covers the largest distance used is legal - also one far
+            // smaller than the block's output; a third of the blocks announce the smallest
+            dict_prop: {
+                let lo = xz::lzma2_dict_prop_for(NEED_DICT.with(|n| n.get()).max(1));
+                if rng.chance(1, 3) { lo } else { rng.range(lo as u64, 40) as u8 }
+            },
         };
         descs.push(format!(
             "block[{}{}hdrpad+{} {} -> {}B]",
